@@ -1,15 +1,92 @@
 (** * C04 - the rendered HTML table realises the abstract table cell for cell.
     Property theorems only; proofs live in Proofs/HtmlTable*.v.
 
-    TODO (not yet covered here): C04_cell_text - the visible text of every cell body is the
-    node's amount and description (or output names).  It needs the string-exact model of the
-    cell bodies (Model/Html.v) and is handled separately. *)
-From Coq Require Import List Arith NArith Bool.
-From RG Require Import Model.Table Model.Layout Model.HtmlTable.
-Import ListNotations.
+    [emit body t] is the model of what [render_table] writes for the table [t]
+    (rows of [<td>] with their [rowspan]/[colspan] attributes and classes, bodies
+    opaque); [html_place] is the HTML standard's table-forming algorithm;
+    [geometry t] lists the abstract grid: its dimensions and, in raster order,
+    every [Cell] of the array with its position and extent.
 
-Example C04_smoke :
-  exists tb, recipe_tree_to_table (LStep [LLeaf false; LSub (LLeaf true) 1 true]) = Ok tb
-             /\ html_place (spans (emit (fun _ => []) tb)) = Some (geometry tb).
-Proof. eexists. split; [vm_compute; reflexivity | vm_compute; reflexivity]. Qed.
-Print Assumptions C04_smoke.
+    TODO (not yet covered here): C04_cell_text - the visible text of every cell
+    body is the node's amount and description (or output names).  It needs the
+    string-exact model of the cell bodies (Model/Html.v) and is handled
+    separately; nothing in this file speaks about [td_body]. *)
+From Coq Require Import List Arith NArith Bool String.
+From RG Require Import Base.Str Model.Table Model.Layout Model.HtmlTable Spec.LayoutSpec
+  Proofs.LayoutTiling Proofs.LayoutArith Proofs.HtmlTablePlace Proofs.HtmlTableEmit.
+Import ListNotations.
+Local Open Scope N_scope.
+
+(** A browser that forms the table from the emitted rows and span attributes obtains
+    exactly the abstract grid: the same number of rows and columns, no table model
+    error (no slot assigned twice), every cell anchored at its abstract (row, column)
+    with its abstract extent.  Needs only that the abstract table is a tiling. *)
+Theorem C04_html_realises_grid : forall body t,
+  TilingT t -> html_place (spans (emit body t)) = Some (geometry t).
+Proof. exact html_realises_grid. Qed.
+Print Assumptions C04_html_realises_grid.
+
+(** With C02_tiling: for the table of every well-formed recipe tree. *)
+Theorem C04_html_realises_tree : forall body (t : ltree),
+  wf t = true ->
+  exists tb, recipe_tree_to_table t = Ok tb
+             /\ TilingT tb
+             /\ html_place (spans (emit body tb)) = Some (geometry tb).
+Proof.
+  intros body t Hwf. destruct (layout_ok t true [] Hwf) as [E T].
+  exists (alayout true [] t). split; [exact E|]. split; [exact T|].
+  apply html_realises_grid. exact T.
+Qed.
+Print Assumptions C04_html_realises_tree.
+
+(** Every [<td>] is the rendering of a cell of the table (nothing invented). *)
+Theorem C04_tds_are_cells : forall body t row d,
+  In row (emit body t) -> In d row ->
+  exists e, In e (t_cells t) /\ d = render_cell body (e_cell e).
+Proof. exact emit_tds. Qed.
+Print Assumptions C04_tds_are_cells.
+
+(** Span attributes: absent exactly when the span is 1, otherwise equal to the span. *)
+Theorem C04_span_attrs : forall body c,
+  let d := render_cell body c in
+  (td_rowspan d = None <-> c_rows c = 1) /\ (forall n, td_rowspan d = Some n -> n = c_rows c) /\
+  (td_colspan d = None <-> c_cols c = 1) /\ (forall n, td_colspan d = Some n -> n = c_cols c).
+Proof. exact span_attrs. Qed.
+Print Assumptions C04_span_attrs.
+
+(** Classes: the first is the class of the node kind; after it exactly one class per
+    non-normal border, named after the edge and the border type. *)
+Theorem C04_classes : forall body c,
+  let cls := td_classes (render_cell body c) in
+  List.hd [] cls = kind_class (fst (c_label c))
+  /\ List.length cls
+     = (1 + nonnormal (c_bl c) + nonnormal (c_br c) + nonnormal (c_bt c) + nonnormal (c_bb c))%nat
+  /\ (In (s "rg-border-left-none") (List.tl cls) <-> c_bl c = BNone)
+  /\ (In (s "rg-border-left-sub-recipe") (List.tl cls) <-> c_bl c = BSub)
+  /\ (In (s "rg-border-right-none") (List.tl cls) <-> c_br c = BNone)
+  /\ (In (s "rg-border-right-sub-recipe") (List.tl cls) <-> c_br c = BSub)
+  /\ (In (s "rg-border-top-none") (List.tl cls) <-> c_bt c = BNone)
+  /\ (In (s "rg-border-top-sub-recipe") (List.tl cls) <-> c_bt c = BSub)
+  /\ (In (s "rg-border-bottom-none") (List.tl cls) <-> c_bb c = BNone)
+  /\ (In (s "rg-border-bottom-sub-recipe") (List.tl cls) <-> c_bb c = BSub).
+Proof. exact classes_spec. Qed.
+Print Assumptions C04_classes.
+
+(** The row-restricted variant evaluated by the correspondence runs is the same function. *)
+Theorem C04_emit_fast_eq : forall body t, emit_fast body t = emit body t.
+Proof. exact emit_fast_eq. Qed.
+Print Assumptions C04_emit_fast_eq.
+
+(** Non-vacuity: a ragged tree under a multi-output root; the markup's spans and classes. *)
+Example C04_example :
+  exists tb, recipe_tree_to_table (LSub (LStep [LLeaf false; LSub (LStep [LLeaf true; LLeaf false]) 1 true]) 2 true)
+             = Ok tb
+    /\ map (map (fun d => (td_rowspan d, td_colspan d, List.length (td_classes d)))) (emit (fun _ => []) tb)
+       = [[(None, Some 2, 3%nat); (Some 4, None, 4%nat); (Some 4, None, 4%nat)];
+          [(None, Some 2, 4%nat)];
+          [(None, None, 2%nat); (Some 2, None, 3%nat)];
+          [(None, None, 3%nat)]]
+    /\ html_place (spans (emit (fun _ => []) tb)) = Some (geometry tb)
+    /\ fst (geometry tb) = (4, 4).
+Proof. eexists. split; [vm_compute; reflexivity|]. vm_compute. repeat split; reflexivity. Qed.
+Print Assumptions C04_example.
